@@ -439,6 +439,13 @@ V("split-writes-self", "break", ["C12"], PB, "            problem.shr_domains_ls
 V("split-fast-path-self", "break", ["C12"], PB,
   "        problems = []\n        min_idx = shr_dom_min\n", "        if split_nb == 1:\n            return [self]\n        problems = []\n        min_idx = shr_dom_min\n",
   "a single part is the problem itself, not a copy", "split")
+V("split-remainder-leq", "break", ["C12"], PB, "(0 if split_idx < shr_dom_sz % split_nb else 1)", "(0 if split_idx <= shr_dom_sz % split_nb else 1)",
+  "remainder spread over one part too many: the last part ends beyond the domain maximum", "split")
+V("split-remainder-shifted", "break", ["C12"], PB, "(0 if split_idx < shr_dom_sz % split_nb else 1)", "(0 if split_idx + 1 < shr_dom_sz % split_nb else 1)",
+  "remainder spread over one part too few: the top value is lost", "split")
+V("split-neutral-remainder-first", "neutral", ["C12"], PB,
+  "            max_idx = min_idx + shr_dom_sz // split_nb - (0 if split_idx < shr_dom_sz % split_nb else 1)\n",
+  "            extra = 1 if split_idx < shr_dom_sz % split_nb else 0\n            max_idx = min_idx + shr_dom_sz // split_nb + extra - 1\n", "same sizes written differently")
 V("split-neutral-temp", "neutral", ["C12"], PB, "            min_idx = max_idx + 1\n", "            nxt = max_idx + 1\n            min_idx = nxt\n", "temp")
 
 # ---------------------------------------------------------------------------------------------------- shaving
